@@ -364,7 +364,7 @@ def parse_functions(text, want=None):
             continue
         name = hdr[:name_end]
         raw[name] = (hdr, body, name_end)
-    for m in re.finditer(r"^(?:const|static) (.*?): (.*?) = \{\n(.*?)^\}\n", text, re.S | re.M):
+    for m in re.finditer(r"^(?:const|static) ([^\n]*?): ([^\n]*?) = \{\n(.*?)^\}\n", text, re.S | re.M):
         raw["const " + m.group(1)] = ("const", m.group(3), None, m.group(2))
     return raw
 
